@@ -49,6 +49,7 @@ fn main() {
             let from: u64 = args[5].parse().unwrap();
             let to: u64 = args[6].parse().unwrap();
             let out = &args[7];
+            std::env::set_var("VERIF_WORKER_OUT", out);
             let extra = &args[8..];
             let agg = match world {
                 "H" => h_check::worker(tier, seed, from, to, extra),
